@@ -2,7 +2,9 @@
 
 Theorems: coq/C15/Properties_C15.v, about the small-step machine of coq/C15/Model.v (SimpleEventLoop
 + the places the interpreter re-enters it) for EVERY task program (the statement semantics is a
-Section variable).  Tie: generated task programs are printed as Cb source and as input of the
+Section variable), and about one step of a structured statement (coq/C15/Body.v: for / while /
+blocks / if / continue / break / yield / return as the executors run and resume them): every
+iteration boundary ends the turn of a task / runs the background cycle of main.  Tie: generated task programs are printed as Cb source and as input of the
 extracted machine (bin/c15_model); the implementation's CB_VERIF_SCHED_TRACE stream merged with the
 program's own output (virtual clock CB_VERIF_CLOCK) must equal the model's event list line by line.
 Independent of the model, the property's own reading is evaluated on the implementation's trace
@@ -34,9 +36,15 @@ META = {
             "stepped or completed on a clock reading below its deadline and every later reading of a monotone clock is >= deadline; a sleeper's "
             "turn changes nothing but the queue rotation. Two laws are refuted on the faithful model (await of a task suspended beneath the "
             "awaiting one returns before completion; a task whose target is done is not resumed while a task stepped from inside its await loop "
-            "is itself awaiting) and reproduced on the binary as known findings. The model is tied to the code on every run by trace equality on "
-            "generated task programs (<= 4 functions, <= 4 suspension points each, nested awaits, loops, plain calls, sleep/timeout on a virtual "
-            "clock), exhaustive for a small alphabet in the thorough tier.",
+            "is itself awaiting) and reproduced on the binary as known findings. Loop-iteration boundaries: a function-by-function model of "
+            "execute_for_statement / execute_while_statement / execute_compound_statement (resume positions, continue / break / yield / return "
+            "handlers, nested loops, calls) with the theorems that in a task every end of an iteration that does not leave the loop - the body "
+            "ran to its end or `continue` from any depth - is the last thing the turn does (YieldException(true), the task goes to the back of "
+            "the queue), that outside a task it is followed at once by run_background_tasks_one_cycle, for all statements, environments and "
+            "suspension histories; both are refuted for a while loop whose iteration ends by `continue` (known finding, reproduced on the "
+            "binary). The model is tied to the code on every run by trace equality on "
+            "generated task programs (<= 4 functions, <= 4 suspension points each, nested awaits, loops whose iterations end in every way in "
+            "tasks / main / called functions, plain calls, sleep/timeout on a virtual clock), exhaustive for small alphabets.",
     "note": "Trusted: Coq kernel (vm_compute for the refutation witnesses), no axioms (Print Assumptions: closed); extraction via ExtrOcamlBasic+"
             "ExtrOcamlString; hand-written model; statement semantics abstract (C14 covers bodies); the virtual-clock hook replaces the time "
             "source for trace equality; wall-clock monotonicity is assumed, on real time only now_after - now_before >= ms is tested.",
@@ -51,6 +59,10 @@ CLOCK_STEPS = [1, 2, 5, 7, 10]
 # statement = list: ["P",tag] ["C",[tags]] ["F",f] ["S",f,slot] ["G",f,g] ["A",slot,exp] ["B",g,exp]
 #   ["W",f] ["Z",ms] ["z",ms,slot] ["T",slot,ms,slot2] ["M"] ["E"] ["U"] ["Y"] ["R"] ["L",n,[simple..]]
 #   ["V",var,exp,tag] (print of an awaited value: a model print with tag, value checked by the oracle)
+#   ["X", b]  a structured statement (coq/C15/Body.v), b =
+#     ["x", simple] ["dcl",v,c] ["set",v,c] ["inc",v] ["cont"] ["brk"] ["yld"] ["ret"]
+#     ["if", cond, then, else|None] ["blk",[b..]] ["for",v,n,body] ["whl",cond,body] ["call",[b..]]
+#     cond = ["true"] ["false"] ["eq",v,c] ["lt",v,c] ["mod",v,m,r] ["not",cond]   (v: counter number)
 
 def ret_value(f):
     return 100 + f
@@ -72,8 +84,17 @@ def render_cb(prog):
         uid[0] += 1
         return uid[0]
 
+    voids = void_funs(prog)
+    slot_callee = [dict((st[2], st[1]) for st in body if st[0] == "S") for body in funs]
+
     def simple(st, fk, top, lastmark):
         k = st[0]
+        if k == "S" and st[1] in voids:
+            return "Future<void> v%d_%d = f%d();" % (fk, st[2], st[1])
+        if k == "A" and slot_callee[fk].get(st[1]) in voids:
+            return "await v%d_%d;" % (fk, st[1])
+        if k == "W" and st[1] in voids:
+            return "await f%d();" % st[1]
         if k == "P":
             return 'println("P", %d);' % st[1]
         if k == "C":
@@ -113,14 +134,53 @@ def render_cb(prog):
             return "run_event_loop();"
         raise ValueError(st)
 
+    def rb(b, fk, lastmark, in_call):
+        """Cb text of a structured statement."""
+        k = b[0]
+        if k == "x":
+            return simple(b[1], fk, False, lastmark)
+        if k == "dcl":
+            return "int %s = %d;" % (qvar(fk, b[1]), b[2])
+        if k == "set":
+            return "%s = %d;" % (qvar(fk, b[1]), b[2])
+        if k == "inc":
+            return "%s = %s + 1;" % (qvar(fk, b[1]), qvar(fk, b[1]))
+        if k == "cont":
+            return "continue;"
+        if k == "brk":
+            return "break;"
+        if k == "yld":
+            return "yield;"
+        if k == "ret":
+            return "return;" if (in_call or fk == 0 or fk in voids) else "return %d;" % ret_value(fk)
+        if k == "if":
+            t = "if (%s) %s" % (cond_cb(b[1], fk), rb(b[2], fk, lastmark, in_call))
+            if b[3] is not None:
+                t += " else %s" % rb(b[3], fk, lastmark, in_call)
+            return t
+        if k == "blk":
+            return "{ %s }" % " ".join(rb(x, fk, lastmark, in_call) for x in b[1])
+        if k == "for":
+            q = qvar(fk, b[1])
+            return "for (int %s = 0; %s < %d; %s = %s + 1) %s" % (q, q, b[2], q, q, rb(b[3], fk, lastmark, in_call))
+        if k == "whl":
+            return "while (%s) %s" % (cond_cb(b[1], fk), rb(b[2], fk, lastmark, in_call))
+        if k == "call":
+            n = fresh()
+            helpers.append("void h%d() { %s }" % (n, " ".join(rb(x, fk, lastmark, True) for x in b[1])))
+            return "h%d();" % n
+        raise ValueError(b)
+
     bodies = []
     for fk, body in enumerate(funs):
         lines, lastmark = [], [0]
         for st in body:
-            if st[0] == "Y":
+            if st[0] == "X":
+                lines.append(rb(st[1], fk, lastmark, False))
+            elif st[0] == "Y":
                 lines.append("yield;")
             elif st[0] == "R":
-                lines.append("return %d;" % ret_value(fk) if fk else "return;")
+                lines.append("return %d;" % ret_value(fk) if (fk and fk not in voids) else "return;")
             elif st[0] == "L":
                 i = "i%d" % fresh()
                 inner = " ".join(simple(x, fk, False, lastmark) for x in st[2])
@@ -131,9 +191,98 @@ def render_cb(prog):
     src = list(out)
     src += helpers
     for fk in range(len(funs) - 1, 0, -1):
-        src.append("async int f%d() {\n    %s\n}" % (fk, "\n    ".join(bodies[fk])))
+        src.append("async %s f%d() {\n    %s\n}" % ("void" if fk in voids else "int", fk, "\n    ".join(bodies[fk])))
     src.append("void main() {\n    %s\n}" % "\n    ".join(bodies[0]))
     return "\n".join(src) + "\n"
+
+
+def void_funs(prog):
+    """Async functions whose body does not end with `return k;`: rendered `async void`, they finish by
+    running past their last statement."""
+    return set(fk for fk, body in enumerate(prog["funs"]) if fk and (not body or body[-1][0] != "R"))
+
+
+def qvar(fk, v):
+    return "q%d_%d" % (fk, v)
+
+
+def cond_cb(c, fk):
+    k = c[0]
+    if k == "true":
+        return "1 == 1"
+    if k == "false":
+        return "1 == 0"
+    if k == "eq":
+        return "%s == %d" % (qvar(fk, c[1]), c[2])
+    if k == "lt":
+        return "%s < %d" % (qvar(fk, c[1]), c[2])
+    if k == "mod":
+        return "%s %% %d == %d" % (qvar(fk, c[1]), c[2], c[3])
+    if k == "not":
+        return "!(%s)" % cond_cb(c[1], fk)
+    raise ValueError(c)
+
+
+def cond_tok(c):
+    if c[0] == "not":
+        return "not " + cond_tok(c[1])
+    return " ".join(str(x) for x in c)
+
+
+def b_children(b):
+    """Direct sub-statements of a structured statement."""
+    k = b[0]
+    if k == "if":
+        return [b[2]] + ([b[3]] if b[3] is not None else [])
+    if k in ("blk", "call"):
+        return list(b[1])
+    if k == "for":
+        return [b[3]]
+    if k == "whl":
+        return [b[2]]
+    return []
+
+
+def b_walk(b):
+    yield b
+    for c in b_children(b):
+        for x in b_walk(c):
+            yield x
+
+
+def tok_b(b):
+    k = b[0]
+    if k == "x":
+        return tok(b[1])
+    if k in ("dcl", "set"):
+        return "set %d %d" % (b[1], b[2])
+    if k == "inc":
+        return "inc %d" % b[1]
+    if k in ("cont", "brk", "yld", "ret"):
+        return k
+    if k == "if":
+        return "if %s %s" % (cond_tok(b[1]), tok_b(b[2])) + ((" else " + tok_b(b[3])) if b[3] is not None else "")
+    if k == "blk":
+        return "{ " + " ".join([tok_b(x) for x in b[1]] + ["}"])
+    if k == "for":
+        return "for %d %d %s" % (b[1], b[2], tok_b(b[3]))
+    if k == "whl":
+        return "whl %s %s" % (cond_tok(b[1]), tok_b(b[2]))
+    if k == "call":
+        return "call{ " + " ".join([tok_b(x) for x in b[1]] + ["}"])
+    raise ValueError(b)
+
+
+def can_continue(b):
+    """A continue statement can end the statement (Body.v can_continue)."""
+    k = b[0]
+    if k == "cont":
+        return True
+    if k == "if":
+        return can_continue(b[2]) or (b[3] is not None and can_continue(b[3]))
+    if k == "blk":
+        return any(can_continue(x) for x in b[1])
+    return False
 
 
 def walk(body):
@@ -142,6 +291,10 @@ def walk(body):
         if st[0] == "L":
             for x in st[2]:
                 yield x
+        if st[0] == "X":
+            for x in b_walk(st[1]):
+                if x[0] == "x":
+                    yield x[1]
 
 
 def tok(st):
@@ -176,6 +329,8 @@ def tok(st):
         return "C"             # a declaration: a statement that asks nothing of the scheduler
     if k == "L":
         return "L%d( %s )" % (st[1], " ".join(tok(x) for x in st[2]))
+    if k == "X":
+        return "@ " + tok_b(st[1])
     raise ValueError(st)
 
 
@@ -188,12 +343,120 @@ class Gen:
     """Random task programs: <= 4 async functions, <= 4 suspension points per body, call graph acyclic
     (function k only starts functions > k), every kind of re-entry of the scheduler."""
 
-    def __init__(self, rng, nfuns=None, globals_ok=False, timed=True):
+    def __init__(self, rng, nfuns=None, globals_ok=False, timed=True, xloops=0.0):
         self.rng = rng
         self.n = nfuns if nfuns is not None else rng.randint(1, 4)
         self.globals_ok = globals_ok
         self.timed = timed
         self.tag = 0
+        self.xloops = xloops          # probability of a structured loop per statement slot (0: the generator of round 1)
+        self.nvar = {}                # function -> next counter number
+        self.voids = set()
+        if xloops:
+            self.voids = set(k for k in range(1, self.n + 1) if rng.random() < 0.3)
+
+    # ---- structured statements (Body.v): loops whose iterations end in every way
+    def newvar(self, fk):
+        self.nvar[fk] = self.nvar.get(fk, 0) + 1
+        return self.nvar[fk] - 1
+
+    def xcond(self, v, encl):
+        rng = self.rng
+        w = v if (not encl or rng.random() < 0.7) else rng.choice(encl)
+        r = rng.random()
+        if r < 0.45:
+            m = rng.choice([2, 2, 3])
+            c = ["mod", w, m, rng.randrange(m)]
+        elif r < 0.75:
+            c = ["eq", w, rng.randint(0, 3)]
+        else:
+            c = ["lt", w, rng.randint(1, 3)]
+        return ["not", c] if rng.random() < 0.15 else c
+
+    def xsimple(self, fk, in_call):
+        """A statement without control flow inside a structured body."""
+        rng = self.rng
+        callees = list(range(fk + 1, self.n + 1))
+        r = rng.random()
+        if r < 0.5 or not callees:
+            if r < 0.08 and self.timed:
+                return ["x", ["Z", rng.choice(SLEEP_GRID[:4])]]
+            if r < 0.2:
+                return ["x", ["C", [self.t(fk) for _ in range(rng.randint(1, 2))]]]
+            return _P(self.t(fk))
+        if r < 0.8:
+            return ["x", ["W", rng.choice(callees), 0]]
+        return ["x", ["F", rng.choice(callees)]]
+
+    def xitems(self, fk, v, depth, encl, in_task, in_call, hoist):
+        """Body of a loop over counter v: the iteration marker, then statements that end the iteration
+        in different ways."""
+        rng = self.rng
+        items = [_P(self.t(fk))]
+        for _ in range(rng.randint(0, 3)):
+            r = rng.random()
+            if r < 0.20:
+                items.append(self.xsimple(fk, in_call))
+            elif r < 0.45:
+                c = self.xcond(v, encl)
+                shape = rng.randrange(5)
+                if shape == 0:
+                    items.append(["if", c, ["cont"], None])
+                elif shape == 1:
+                    items.append(["if", c, ["blk", [_P(self.t(fk)), ["cont"]]], None])
+                elif shape == 2:
+                    items.append(["if", c, ["blk", [_P(self.t(fk))]], ["blk", [["cont"]]]])
+                elif shape == 3:
+                    items.append(["blk", [["if", c, ["blk", [["blk", [["cont"]]]]], None], _P(self.t(fk))]])
+                else:
+                    items.append(["if", c, ["blk", [self.xsimple(fk, in_call), ["cont"]]], ["blk", [_P(self.t(fk))]]])
+            elif r < 0.53:
+                c = self.xcond(v, encl)
+                items.append(["if", c, ["brk"] if rng.random() < 0.5 else ["blk", [_P(self.t(fk)), ["brk"]]], None])
+            elif r < 0.57:
+                items.append(["cont"])
+            elif r < 0.61 and in_task and not in_call:
+                if rng.random() < 0.6:
+                    items.append(["yld"])
+                else:       # a yield inside a branch of the body
+                    items.append(["if", self.xcond(v, encl), ["blk", [_P(self.t(fk)), ["yld"], _P(self.t(fk))]], None])
+            elif r < 0.64:
+                items.append(["if", self.xcond(v, encl), ["blk", [["ret"]]], None])
+            elif r < 0.80 and depth < 2:
+                pre, loop = self.xloop(fk, depth + 1, encl + [v], in_task, in_call, hoist)
+                items += pre + [loop]
+            elif r < 0.90:
+                c = self.xcond(v, encl)
+                items.append(["if", c, ["blk", [_P(self.t(fk))]], ["blk", [_P(self.t(fk))]] if rng.random() < 0.6 else None])
+            else:
+                items.append(self.xsimple(fk, in_call))
+        return items
+
+    def xloop(self, fk, depth, encl, in_task, in_call, hoist):
+        """(statements before the loop, the loop); counters of while loops are appended to `hoist` (they
+        are declared at the top level of the function)."""
+        rng = self.rng
+        kind = "for" if rng.random() < 0.55 else "whl"
+        v = self.newvar(fk)
+        n = rng.randint(1, 4) if depth == 0 else rng.randint(1, 3)
+        items = self.xitems(fk, v, depth, encl, in_task, in_call, hoist)
+        if kind == "whl":
+            hoist.append(v)
+        return mk_loop(kind, v, n, items)
+
+    def xstatements(self, fk):
+        """Top-level statements for one structured loop in function fk (in a plain function called from
+        main now and then)."""
+        rng = self.rng
+        hoist = []
+        if fk == 0 and rng.random() < 0.3:
+            pre, loop = self.xloop(fk, 0, [], False, True, hoist)
+            body = [["dcl", w, 0] for w in hoist] + pre + [loop]
+            if rng.random() < 0.5:
+                body.append(_P(self.t(fk)))
+            return [["X", ["call", body]]]
+        pre, loop = self.xloop(fk, 0, [], fk != 0, False, hoist)
+        return [["X", ["dcl", w, 0]] for w in hoist] + [["X", x] for x in pre] + [["X", loop]]
 
     def t(self, fk):
         self.tag += 1
@@ -221,19 +484,22 @@ class Gen:
         nslot = 0
         nst = rng.randint(1, 7) if not is_main else rng.randint(2, 8)
         marked = False
-        if is_main and self.globals_ok and callees:
-            out.append(["G", rng.choice(callees), 0])      # the only global future, assigned before any task exists
+        if is_main and self.globals_ok and [c for c in callees if c not in self.voids]:
+            out.append(["G", rng.choice([c for c in callees if c not in self.voids]), 0])      # the only global future, assigned before any task exists
         while len(out) < nst:
+            if self.xloops and susp < 4 and rng.random() < self.xloops:
+                out += self.xstatements(fk); susp += 2
+                continue
             r = rng.random()
             if r < 0.16:
                 out.append(["P", self.t(fk)])
             elif r < 0.30 and not is_main and susp < 4:
                 out.append(["Y"]); susp += 1
-            elif r < 0.34 and susp < 4 and callees and not is_main:
+            elif r < 0.34 and susp < 4 and [c for c in callees if c not in self.voids] and not is_main:
                 # for (...) { r = await child(); println(..); }  - the child ends with `return`
                 var = "lw%d_%d" % (fk, self.t(fk))
                 n = rng.randint(2, 3)
-                bodyl = [["W", rng.choice(callees), 0, var], ["P", self.t(fk)]]
+                bodyl = [["W", rng.choice([c for c in callees if c not in self.voids]), 0, var], ["P", self.t(fk)]]
                 if rng.random() < 0.4:
                     bodyl.reverse()
                 out.append(["D", var]); out.append(["L", n, bodyl]); susp += n
@@ -245,13 +511,13 @@ class Gen:
             elif r < 0.62 and slots and susp < 4:
                 s, kind, cal = slots.pop(rng.randrange(len(slots)))
                 out.append(["A", s, 0]); susp += 1
-                if kind == "S" and rng.random() < 0.8:
+                if kind == "S" and cal not in self.voids and rng.random() < 0.8:
                     out.append(["V", "r%d_%d" % (fk, s), ret_value(cal), self.t(fk)])
             elif r < 0.70 and callees and susp < 4:
                 wid = self.t(fk)
                 cal = rng.choice(callees)
                 out.append(["W", cal, wid]); susp += 1
-                if rng.random() < 0.8:
+                if cal not in self.voids and rng.random() < 0.8:
                     out.append(["V", "w%d_%d" % (fk, wid), ret_value(cal), self.t(fk)])
             elif r < 0.75 and callees:
                 out.append(["F", rng.choice(callees)])
@@ -259,8 +525,8 @@ class Gen:
                 out.append(["Z", rng.choice(SLEEP_GRID)]); susp += 1
             elif r < 0.86 and self.timed:
                 out.append(["z", rng.choice(SLEEP_GRID), nslot]); slots.append((nslot, "z", None)); nslot += 1
-            elif r < 0.89 and self.timed and any(k == "S" for _, k, _ in slots):
-                i = [j for j, (_, k, _) in enumerate(slots) if k == "S"][0]
+            elif r < 0.89 and self.timed and any(k == "S" and c not in self.voids for _, k, c in slots):
+                i = [j for j, (_, k, c) in enumerate(slots) if k == "S" and c not in self.voids][0]
                 s, _, _ = slots.pop(i)
                 out.append(["T", s, rng.choice(SLEEP_GRID), nslot]); slots.append((nslot, "T", None)); nslot += 1
             elif r < 0.93:
@@ -277,7 +543,10 @@ class Gen:
             elif r < 0.995 and not is_main and len(out) >= 2:
                 out.append(["R"])
         if not is_main:
-            out.append(["R"])
+            if fk not in self.voids:
+                out.append(["R"])
+            elif out and out[-1][0] == "R":
+                out.append(["P", self.t(fk)])      # a void function ends by running past its last statement
         elif slots and rng.random() < 0.7:
             for s, kind, cal in slots:
                 out.append(["A", s, 0])
@@ -304,6 +573,149 @@ def loop_await_programs():
                                 [["S", 2, 1], ["S", 1, 0], ["P", 1], ["P", 2], ["A", 0, 0]],
                                 [["S", 1, 0], ["S", 2, 1]] + [["P", k] for k in range(1, 9)]][mk]
                         yield {"step": 5, "funs": [main, f1, f2, json.loads(json.dumps(child))]}
+
+
+# ------------------------------------------------------------------------------ loops: every way an iteration ends
+def _P(t):
+    return ["x", ["P", t]]
+
+
+def mk_loop(kind, v, n, items):
+    """(statements to run before the loop, the loop) for `n` iterations of `items` over counter v.
+    for:   for (int v = 0; v < n; v = v + 1) { items }            v = 0..n-1 in the body
+    whl:   v = 0; while (v < n) { v = v + 1; items }              v = 1..n in the body (the counter is
+           stepped first so that `continue` cannot loop forever)"""
+    if kind == "for":
+        return [], ["for", v, n, ["blk", items]]
+    return [["set", v, 0]], ["whl", ["lt", v, n], ["blk", [["inc", v]] + items]]
+
+
+def loop_body_kinds(v, v2, T, kind2, child, in_task):
+    """(name, body items, counters of nested while loops) - one entry per way an iteration can end.
+    T.. are print tags; the first print of a body is the iteration marker the oracle counts."""
+    pre2, inner_plain = mk_loop(kind2, v2, 2, [_P(T + 10), _P(T + 11)])
+    _, inner_cont = mk_loop(kind2, v2, 2, [_P(T + 10), ["if", ["eq", v2, 1], ["cont"], None], _P(T + 11)])
+    _, inner_brk = mk_loop(kind2, v2, 3, [_P(T + 10), ["if", ["eq", v2, 1], ["brk"], None], _P(T + 11)])
+    w2 = [v2] if kind2 == "whl" else []
+    yield "fall", [_P(T), _P(T + 1)], []
+    yield "cont-some", [_P(T), ["if", ["mod", v, 2, 1], ["blk", [_P(T + 2), ["cont"]]], None], _P(T + 1)], []
+    yield "cont-all", [_P(T), ["cont"]], []
+    yield "cont-all-dead-code", [_P(T), ["cont"], _P(T + 1)], []
+    yield "cont-bare-if", [_P(T), ["if", ["mod", v, 2, 0], ["cont"], None], _P(T + 1)], []
+    yield "cont-nested-block", [_P(T), ["blk", [["if", ["eq", v, 1], ["blk", [["blk", [_P(T + 2), ["cont"]]]]], None], _P(T + 3)]], _P(T + 1)], []
+    yield "cont-else", [_P(T), ["if", ["lt", v, 2], ["blk", [_P(T + 2)]], ["blk", [_P(T + 3), ["cont"]]]], _P(T + 1)], []
+    yield "cont-first-iterations", [_P(T), ["if", ["lt", v, 2], ["cont"], None], _P(T + 1)], []
+    yield "cont-last-iterations", [_P(T), ["if", ["not", ["lt", v, 2]], ["blk", [["cont"]]], None], _P(T + 1)], []
+    yield "cont-after-await", [_P(T), ["x", ["W", child, 0]], ["if", ["mod", v, 2, 1], ["cont"], None], _P(T + 1)], []
+    yield "cont-after-call", [_P(T), ["x", ["C", [T + 4, T + 5]]], ["if", ["mod", v, 2, 1], ["cont"], None], _P(T + 1)], []
+    yield "break", [_P(T), ["if", ["eq", v, 2], ["blk", [_P(T + 2), ["brk"]]], None], _P(T + 1)], []
+    yield "break-first", [_P(T), ["brk"]], []
+    yield "break-or-cont", [_P(T), ["if", ["eq", v, 1], ["cont"], ["blk", [["if", ["eq", v, 3], ["brk"], None]]]], _P(T + 1)], []
+    yield "return", [_P(T), ["if", ["eq", v, 2], ["blk", [_P(T + 2), ["ret"]]], None], _P(T + 1)], []
+    yield "nested", [_P(T)] + pre2 + [inner_plain, _P(T + 1)], w2
+    yield "nested-inner-cont", [_P(T)] + pre2 + [inner_cont, _P(T + 1)], w2
+    yield "nested-inner-break", [_P(T)] + pre2 + [inner_brk, _P(T + 1)], w2
+    yield "nested-then-cont", [_P(T)] + pre2 + [inner_plain, ["if", ["mod", v, 2, 1], ["cont"], None], _P(T + 1)], w2
+    yield "nested-first", pre2 + [inner_plain, _P(T)], w2
+    if in_task:
+        yield "yield-in-branch", [_P(T), ["if", ["mod", v, 2, 1], ["blk", [_P(T + 2), ["yld"], _P(T + 3)]], None], _P(T + 1)], []
+        yield "yield", [_P(T), ["yld"], _P(T + 1)], []
+        yield "yield-then-cont", [_P(T), ["yld"], ["if", ["mod", v, 2, 1], ["cont"], None], _P(T + 1)], []
+
+
+LOOP_CONTEXTS = ("task-awaited", "task-detached", "main", "call-from-main")
+
+
+def loop_kind_programs():
+    """For and while loops whose iterations end in every way, (a) in an async task while two or three
+    other tasks are runnable, (b) in main and (c) in a plain function called from main while
+    background tasks exist.  -> (program, label)"""
+    for kind in ("for", "whl"):
+        for ctx in LOOP_CONTEXTS:
+            in_task = ctx.startswith("task")
+            fk = 1 if in_task else 0
+            for kind2 in ("for", "whl"):
+                for name, items, w2 in loop_body_kinds(0, 1, fk * 1000 + 100, kind2, 4, in_task):
+                    if kind2 == "whl" and not w2:
+                        continue            # the body has no nested loop: one copy is enough
+                    pre, loop = mk_loop(kind, 0, 4, items)
+                    dcl = [["dcl", w, 0] for w in ([0] if kind == "whl" else []) + w2]
+                    f2 = [["L", 3, [["P", 2001]]], ["P", 2002], ["R"]]
+                    f3 = [["Y"], ["P", 3001], ["Y"], ["P", 3002], ["R"]]
+                    f4 = [["P", 4001], ["R"]]
+                    if in_task:
+                        f1 = [["X", d] for d in dcl] + [["X", loop], ["P", 1001], ["R"]]
+                        if ctx == "task-awaited":
+                            main = [["S", 1, 0], ["S", 2, 1], ["S", 3, 2], ["A", 0, 0], ["A", 1, 0], ["A", 2, 0]]
+                        else:
+                            main = [["S", 2, 1], ["S", 1, 0]] + [["P", k] for k in range(1, 15)]
+                    else:
+                        f1 = [["R"]]
+                        if ctx == "main":
+                            core = [["X", d] for d in dcl] + [["X", loop]]
+                        else:
+                            core = [["X", ["call", dcl + [loop, _P(7)]]]]
+                        main = [["S", 2, 0], ["S", 3, 1]] + core + [["P", 8], ["A", 0, 0], ["A", 1, 0]]
+                    yield ({"step": 5, "funs": json.loads(json.dumps([main, f1, f2, f3, f4]))},
+                           "%s/%s/%s%s" % (kind, ctx, name, "+" + kind2 if w2 or "nested" in name else ""))
+    # a loop body that is a single statement, not a block: for (..) println(..);   for (..) if (c) continue;
+    for body, name in ((_P(1100), "unbraced-print"), (["if", ["mod", 0, 2, 1], ["cont"], None], "unbraced-if-continue")):
+        loop = ["for", 0, 3, body]
+        f2 = [["L", 3, [["P", 2001]]], ["P", 2002], ["R"]]
+        f3 = [["Y"], ["P", 3001], ["Y"], ["P", 3002], ["R"]]
+        yield ({"step": 5, "funs": json.loads(json.dumps([[["S", 1, 0], ["S", 2, 1], ["S", 3, 2], ["A", 0, 0], ["A", 1, 0], ["A", 2, 0]],
+                                                          [["X", loop], ["P", 1001], ["R"]], f2, f3]))}, "for/task-awaited/" + name)
+        yield ({"step": 5, "funs": json.loads(json.dumps([[["S", 2, 0], ["S", 3, 1], ["X", loop], ["P", 8], ["A", 0, 0], ["A", 1, 0]],
+                                                          [["R"]], f2, f3]))}, "for/main/" + name)
+
+
+def loop_exhaustive_programs(nitems):
+    """Every loop body of <= nitems statements over a small alphabet of iteration endings, as a for and as a
+    while loop, in a task next to two runnable tasks and in main with two background tasks."""
+    import itertools
+
+    def alphabet(v, T, in_task):
+        a = [lambda j: _P(T + j),
+             lambda j: ["cont"],
+             lambda j: ["if", ["mod", v, 2, 1], ["cont"], None],
+             lambda j: ["if", ["eq", v, 1], ["brk"], None],
+             lambda j: ["for", 5 + j, 2, ["blk", [_P(T + 20 + j)]]],
+             lambda j: ["if", ["lt", v, 2], ["blk", [_P(T + 30 + j)]], ["blk", [["cont"]]]]]
+        if in_task:
+            a.append(lambda j: ["yld"])
+        return a
+    for in_task in (True, False):
+        fk = 1 if in_task else 0
+        T = fk * 1000 + 100
+        al = alphabet(0, T, in_task)
+        for n in range(0, nitems + 1):
+            for combo in itertools.product(range(len(al)), repeat=n):
+                items = [_P(T)] + [al[a](j + 1) for j, a in enumerate(combo)]
+                for kind in ("for", "whl"):
+                    pre, loop = mk_loop(kind, 0, 3, json.loads(json.dumps(items)))
+                    dcl = [["X", ["dcl", 0, 0]]] if kind == "whl" else []
+                    f2 = [["L", 2, [["P", 2001]]], ["P", 2002]]              # void: runs past its last statement
+                    f3 = [["Y"], ["P", 3001], ["Y"]]                         # void: ends with a yield
+                    if in_task:
+                        f1 = dcl + [["X", loop], ["P", 1001], ["R"]]
+                        main = [["S", 1, 0], ["S", 2, 1], ["S", 3, 2], ["A", 0, 0], ["A", 1, 0], ["A", 2, 0]]
+                    else:
+                        f1 = [["R"]]
+                        main = [["S", 2, 0], ["S", 3, 1]] + dcl + [["X", loop], ["P", 8], ["A", 0, 0], ["A", 1, 0]]
+                    yield {"step": 5, "funs": [main, f1, f2, f3]}
+
+
+def livelock_programs():
+    """A loop in a plain function called from a task: the auto-yield unwinds the call, the task calls the
+    function afresh on every turn and never finishes (a defect of the interpreter outside C15's statement -
+    every turn still ends at the iteration boundary; reported to C14's owner).  The model mirrors it
+    (no halt within the step cap), the implementation must hang too; the common prefix is compared."""
+    for kind in ("for", "whl"):
+        pre, loop = mk_loop(kind, 0, 2, [_P(1100), ["if", ["eq", 0, 1], ["cont"], None], _P(1101)])
+        dcl = [["dcl", 0, 0]] if kind == "whl" else []
+        f1 = [["P", 1001], ["X", ["call", dcl + [loop, _P(1102)]]], ["P", 1002], ["R"]]
+        f2 = [["L", 3, [["P", 2001]]], ["R"]]
+        yield {"step": 5, "funs": [[["S", 1, 0], ["S", 2, 1], ["A", 1, 0], ["A", 0, 0]], f1, f2]}
 
 
 def exhaustive_programs(natoms, ntasks):
@@ -335,6 +747,51 @@ def exhaustive_programs(natoms, ntasks):
         funs.append([["P", child * 1000], ["Y"], ["R"]])          # the child every "W" awaits
         funs[0] = [["S", k + 1, k] for k in range(ntasks)] + [["P", 1]] + [["A", k, 0] for k in range(ntasks)]
         yield {"step": 5, "funs": funs}
+
+
+def loop_features(prog):
+    """Which loops a program has: '<for|whl>/<task|main|call>/<ending>' for every loop and every way its
+    iterations can end (fall = the body can run to its end is always possible and not listed)."""
+    out = set()
+    for fk, body in enumerate(prog["funs"]):
+        for st in body:
+            if st[0] == "L":
+                out.add("for/%s/plain" % ("task" if fk else "main"))
+            if st[0] != "X":
+                continue
+
+            def visit(b, ctx, depth):
+                k = b[0]
+                if k in ("for", "whl"):
+                    bod = b[3] if k == "for" else b[2]
+                    pre = "%s/%s/" % (k, ctx)
+                    ends = set()
+                    if can_continue(bod):
+                        ends.add("continue")
+                    for x in b_walk(bod):
+                        if x[0] == "brk":
+                            ends.add("break")
+                        elif x[0] == "ret":
+                            ends.add("return")
+                        elif x[0] == "yld":
+                            ends.add("yield")
+                        elif x[0] in ("for", "whl"):
+                            ends.add("nested-loop")
+                    if bod[0] == "blk" and bod[1] and bod[1][-1][0] == "cont":
+                        ends.add("continue-always")
+                    for e in ends or ["plain"]:
+                        out.add(pre + e)
+                    if depth:
+                        out.add(pre + "is-nested")
+                    visit(bod, ctx, depth + 1)
+                elif k == "call":
+                    for c in b[1]:
+                        visit(c, "call-from-" + ctx, depth)
+                else:
+                    for c in b_children(b):
+                        visit(c, ctx, depth)
+            visit(st[1], "task" if fk else "main", 0)
+    return out
 
 
 # ------------------------------------------------------------------------------ running both sides
@@ -412,22 +869,49 @@ def split_model(mlines):
 
 # ------------------------------------------------------------------------------ the property's own oracle
 def loop_markers(prog):
-    """tag -> (function, statement index) for the first line a loop in a task body prints per iteration."""
+    """tag -> facts about the loop whose iterations start by printing that tag (the first print of the
+    loop body).  fk/stmt: function and top-level statement; main: a loop that runs outside any task
+    (main's body or a plain function called from it); wc: the loop, or a loop around it, is a while
+    loop whose iteration can end by `continue` (known finding C15-while-continue-no-suspension: the
+    two-iterations rules are not applied); exits: the top-level statement contains break / return
+    (a turn that prints the marker may then end without a loop yield)."""
     mk = {}
     for fk, body in enumerate(prog["funs"]):
-        if fk == 0:
-            continue
         for i, st in enumerate(body):
-            if st[0] == "L":
+            if st[0] == "L" and fk:
                 for x in st[2]:
                     if x[0] == "P":
-                        mk[x[1]] = (fk, i); break
+                        mk[x[1]] = {"fk": fk, "stmt": i, "main": False, "wc": False, "exits": False}; break
                     if x[0] == "C" and x[1]:
-                        mk[x[1][0]] = (fk, i); break
+                        mk[x[1][0]] = {"fk": fk, "stmt": i, "main": False, "wc": False, "exits": False}; break
+            if st[0] == "X":
+                exits = any(x[0] in ("brk", "ret") for x in b_walk(st[1]))
+
+                def visit(b, wc, in_call):
+                    k = b[0]
+                    if k in ("for", "whl"):
+                        bod = b[3] if k == "for" else b[2]
+                        wc2 = wc or (k == "whl" and can_continue(bod))
+                        items = bod[1] if bod[0] == "blk" else [bod]
+                        for x in items:
+                            if x[0] in ("inc", "set"):
+                                continue
+                            if x[0] == "x" and x[1][0] == "P":
+                                if fk == 0 or not in_call:
+                                    mk[x[1][1]] = {"fk": fk, "stmt": i, "main": fk == 0, "wc": wc2, "exits": exits}
+                            break
+                        visit(bod, wc2, in_call)
+                    elif k == "call":
+                        for c in b[1]:
+                            visit(c, False, True)
+                    else:
+                        for c in b_children(b):
+                            visit(c, wc, in_call)
+                visit(st[1], False, False)
     return mk
 
 
-def oracle(lines, vals, flags, prog=None):
+def oracle(lines, vals, flags, prog=None, strict_wc=False):
     """The property's own reading, evaluated on the IMPLEMENTATION's trace (never on the model's):
       * turns are served in the order ids were pushed (FIFO), the skip branch is never taken, a finished
         task gets no turn, a task is blocked only on an unfinished task;
@@ -447,7 +931,11 @@ def oracle(lines, vals, flags, prog=None):
     queue = []                 # the ready queue as the trace itself implies it
     since = {}                 # queued task -> {other task: turns since it was queued}
     markers = loop_markers(prog) if prog else {}
+    if strict_wc:                    # replay of the known finding: no exemption for while loops with continue
+        for t in markers:
+            markers[t]["wc"] = False
     spans = []                 # open turns: [task, {marker tag: count}, yielded_loop, turns of others since first marker]
+    main_last = {}             # marker tag of a loop outside any task -> (turns so far, queue non-empty) at its latest print
 
     def push(x):
         since[x] = {}
@@ -460,15 +948,25 @@ def oracle(lines, vals, flags, prog=None):
                 tag = int(w[1])
             except ValueError:
                 continue
-            if tag in markers and spans:
+            if tag in markers and markers[tag]["main"] and not spans:
+                # a loop of main (or of a plain function main calls): its iteration boundary runs the
+                # background tasks, so two iteration starts with a non-empty queue have a turn between them
+                prev = main_last.get(tag)
+                if prev and prev[1] and prev[0] == len(turns) and not markers[tag]["wc"]:
+                    bad.append("main ran two iterations of its loop (statement %d) back to back while tasks were queued: no "
+                               "background cycle at the loop-iteration boundary" % markers[tag]["stmt"])
+                main_last[tag] = (len(turns), bool(queue))
+            elif tag in markers and spans and not markers[tag]["main"]:
                 sp = spans[-1]
-                if sp[1].get(tag):
-                    fk, i = markers[tag]
+                if sp[1].get(tag) and not markers[tag]["wc"]:
+                    fk, i = markers[tag]["fk"], markers[tag]["stmt"]
                     others = sp[3]
                     worst = max([others.count(o) for o in set(others)] or [0])
-                    bad.append("task %s ran two iterations of its loop (statement %d of f%d) inside one turn: it did not give up its "
+                    waiting = [q for q in queue if q != sp[0]]
+                    bad.append("task %s ran two iterations of its loop (statement %d of f%d) inside one turn%s: it did not give up its "
                                "turn at the loop-iteration boundary; %d turns of other tasks were served meanwhile (up to %d for one task)"
-                               % (sp[0], i, fk, len(others), worst))
+                               % (sp[0], i, fk, (" while task%s %s waited in the ready queue" % ("s" if len(waiting) > 1 else "",
+                                                 ", ".join(waiting))) if waiting else "", len(others), worst))
                 sp[1][tag] = sp[1].get(tag, 0) + 1
                 sp[3] = []
             continue
@@ -507,9 +1005,9 @@ def oracle(lines, vals, flags, prog=None):
         elif ev in ("requeue", "complete"):
             if spans and spans[-1][0] == w[2]:
                 sp = spans.pop()
-                if sp[1] and not sp[2] and ev == "requeue":
+                if sp[1] and not sp[2] and ev == "requeue" and not any(markers[t]["exits"] or markers[t]["wc"] for t in sp[1]):
                     tag = next(iter(sp[1]))
-                    fk, i = markers[tag]
+                    fk, i = markers[tag]["fk"], markers[tag]["stmt"]
                     bad.append("task %s finished an iteration of its loop (statement %d of f%d) but its turn did not end with a "
                                "loop-boundary yield" % (sp[0], i, fk))
             if ev == "requeue":
@@ -544,17 +1042,59 @@ def oracle(lines, vals, flags, prog=None):
 
 
 # ------------------------------------------------------------------------------ shrinking
-def shrink(prog, still_bad, budget=60):
-    """Greedy statement deletion keeping `still_bad(prog)` true."""
+def b_variants(b):
+    """One-step reductions of a structured statement: an element of a block or call deleted, an if replaced
+    by a branch, a loop bound lowered, or the same inside a sub-statement."""
+    k = b[0]
+    if k in ("blk", "call"):
+        for i in range(len(b[1])):
+            yield [k, b[1][:i] + b[1][i + 1:]]
+        for i, c in enumerate(b[1]):
+            for v in b_variants(c):
+                yield [k, b[1][:i] + [v] + b[1][i + 1:]]
+    elif k == "if":
+        yield b[2]
+        if b[3] is not None:
+            yield ["if", b[1], b[2], None]
+        for v in b_variants(b[2]):
+            yield ["if", b[1], v, b[3]]
+        if b[3] is not None:
+            for v in b_variants(b[3]):
+                yield ["if", b[1], b[2], v]
+    elif k == "for":
+        if b[2] > 2:
+            yield ["for", b[1], b[2] - 1, b[3]]
+        for v in b_variants(b[3]):
+            yield ["for", b[1], b[2], v]
+    elif k == "whl":
+        if b[1][0] == "lt" and b[1][2] > 2:
+            yield ["whl", ["lt", b[1][1], b[1][2] - 1], b[2]]
+        for v in b_variants(b[2]):
+            if any(x[0] == "inc" for x in b_walk(v)):       # never delete the step of the counter
+                yield ["whl", b[1], v]
+
+
+def shrink(prog, still_bad, budget=120):
+    """Greedy statement deletion (top-level statements, then inside structured statements) keeping
+    `still_bad(prog)` true."""
     prog = json.loads(json.dumps(prog))
     changed = True
     while changed and budget > 0:
         changed = False
         for fk in range(len(prog["funs"])):
             body = prog["funs"][fk]
+            cands = []
             for i in range(len(body)):
                 cand = json.loads(json.dumps(prog))
                 del cand["funs"][fk][i]
+                cands.append(cand)
+            for i in range(len(body)):
+                if body[i][0] == "X":
+                    for v in b_variants(body[i][1]):
+                        cand = json.loads(json.dumps(prog))
+                        cand["funs"][fk][i] = ["X", json.loads(json.dumps(v))]
+                        cands.append(cand)
+            for cand in cands:
                 if not valid(cand):
                     continue
                 budget -= 1
@@ -567,26 +1107,86 @@ def shrink(prog, still_bad, budget=60):
     return prog
 
 
+def cond_vars(c):
+    if c[0] == "not":
+        return cond_vars(c[1])
+    return [c[1]] if c[0] in ("eq", "lt", "mod") else []
+
+
+def valid_b(b, fk, top, in_call, in_loop, decl):
+    """A structured statement the renderer and the implementation accept: counters are declared before
+    they are read (`decl`: the declared counters, extended by top-level `dcl` statements), a while loop
+    steps its counter first (so that it terminates whatever its body does), yield only in a task, ..."""
+    k = b[0]
+    if k == "x":
+        x = b[1]
+        return x[0] in ("P", "C", "F", "Z") or (x[0] == "W" and len(x) <= 3)
+    if k == "dcl":
+        if not top or b[1] in decl:
+            return False
+        decl.add(b[1])
+        return True
+    if k in ("set", "inc"):
+        return b[1] in decl
+    if k == "yld":
+        return fk != 0 and not in_call
+    if k in ("cont", "brk"):
+        return in_loop
+    if k == "if":
+        return all(v in decl for v in cond_vars(b[1])) and all(valid_b(c, fk, False, in_call, in_loop, decl) for c in b_children(b))
+    if k == "blk":
+        return all(valid_b(c, fk, False, in_call, in_loop, decl) for c in b[1])
+    if k == "for":
+        if b[1] in decl:
+            return False
+        return valid_b(b[3], fk, False, in_call, True, decl | {b[1]})
+    if k == "whl":
+        c, bod = b[1], b[2]
+        if not (c[0] == "lt" and c[1] in decl and bod[0] == "blk" and bod[1] and bod[1][0] == ["inc", c[1]]):
+            return False
+        return valid_b(bod, fk, False, in_call, True, decl)
+    if k == "call":
+        own = set()
+        return not in_call and all(valid_b(c, fk, True, True, False, own) for c in b[1])
+    return True
+
+
 def valid(prog):
     """Slots are declared before use, exactly once; M before E; V variables exist."""
+    voids = void_funs(prog)
     for fk, body in enumerate(prog["funs"]):
         declared, marked, vars_ = set(), False, set()
+        void_slots = set()
+        counters = set()
         for st in body:
             k = st[0]
-            if k in ("S", "z"):
+            if k == "X":
+                if not valid_b(st[1], fk, True, False, False, counters):
+                    return False
+            elif k in ("S", "z"):
                 if st[2] in declared:
                     return False
                 declared.add(st[2])
+                if k == "S" and st[1] in voids:
+                    void_slots.add(st[2])
             elif k == "T":
-                if st[1] not in declared or st[3] in declared:
+                if st[1] not in declared or st[3] in declared or st[1] in void_slots:
                     return False
                 declared.add(st[3])
             elif k == "A":
                 if st[1] not in declared:
                     return False
-                vars_.add("r%d_%d" % (fk, st[1]))
+                if st[1] not in void_slots:
+                    vars_.add("r%d_%d" % (fk, st[1]))
             elif k == "W":
-                vars_.add("w%d_%d" % (fk, st[2]))
+                if st[1] in voids:
+                    if len(st) > 3:
+                        return False
+                else:
+                    vars_.add("w%d_%d" % (fk, st[2]))
+            elif k == "G":
+                if st[1] in voids:
+                    return False
             elif k == "V":
                 if st[1] not in vars_:
                     return False
@@ -605,8 +1205,9 @@ def valid(prog):
         for st in walk(body):
             if st[0] in ("S", "F", "W", "G") and not (fk < st[1] < len(prog["funs"])):
                 return False
-        if fk and (not body or body[-1][0] != "R"):
-            return False
+        for st in walk(body):
+            if st[0] == "W" and len(st) > 3 and st[1] in voids:
+                return False
     return True
 
 
@@ -630,6 +1231,9 @@ def replay_finding(f, impl_dir):
             elif seen_done and l in ("CBV requeue " + waiter, "CBV complete " + waiter):
                 break
         return spins > 1, nl
+    if f["replay"]["kind"] == "loop-two-iterations":
+        fails = oracle(nl, vals, set(), prog, strict_wc=True)
+        return any("two iterations" in x for x in fails), nl
     if f["replay"]["kind"] == "hang":
         rc, lines = run_impl(impl_dir, prog, timeout=3)
         return rc == 124, None
@@ -651,6 +1255,8 @@ def compare_batch(progs, impl_dir):
     for p, (m, flags), (rc, il) in zip(progs, splits, impls):
         nl, vals = normalise(il)
         m, nl = canon(m), canon(nl)
+        if "#TRUNC" in flags and "#CAP" not in flags:
+            nl = nl[:len(m)]          # the model printed the events of its first 30 000 machine steps only
         if "#CAP" in flags:
             if rc == 124:
                 n = max(0, min(len(m), len(nl)) - 40)
@@ -662,9 +1268,18 @@ def compare_batch(progs, impl_dir):
 
 
 def report_disagreement(rep, prog, impl_dir, origin):
+    def cls(msg):
+        """Kind of an oracle failure: its text up to the first colon without numbers (+ whether others waited)."""
+        return re.sub(r"\d+", "N", msg.split(":")[0].split(" while task")[0]) + ("!" if " while task" in msg else "")
+    (p0, m0, fl0, il0, vals0, rc0), = compare_batch([prog], impl_dir)
+    f0 = oracle(il0, vals0, fl0, prog)      # the property's own reading on the original input
+    want = cls(f0[0]) if f0 else None
+
     def still_bad(c):
         (p, m, fl, il, vals, rc), = compare_batch([c], impl_dir)
-        return m != il
+        # keep the same failure of the property's own reading while shrinking (a smaller program on which only
+        # the model comparison fails would lose the concrete counterexample)
+        return m != il and (want is None or want in [cls(x) for x in oracle(il, vals, fl, c)])
     small = shrink(prog, still_bad)
     (p, m, fl, il, vals, rc), = compare_batch([small], impl_dir)
     fails = oracle(il, vals, fl, small)
@@ -787,6 +1402,13 @@ def run(rep):
                 yield p, "exhaustive"
         for p in loop_await_programs():
             yield p, "loop-await"
+        # loops whose iterations end in every way, in tasks / main / a function called from main
+        for p, label in loop_kind_programs():
+            yield p, "loop-kinds"
+        for p in loop_exhaustive_programs(2 if tier == "quick" else 3):
+            yield p, "loop-exhaustive"
+        for p in livelock_programs():
+            yield p, "loop-in-called-function"
         seeds = [seed] if tier == "quick" else [seed, seed * 1000003 + 1, seed * 1000003 + 2]
         for sd in seeds:
             for k in range(n_rand):
@@ -795,6 +1417,11 @@ def run(rep):
                 p = g.program()
                 if valid(p):
                     yield p, ("random-globals" if k % 10 == 0 else ("random" if k % 4 else "random-untimed"))
+            for k in range(n_xrand):
+                rng = rng_for(sd, "c15-xloops", k)
+                p = Gen(rng, globals_ok=False, timed=(k % 3 != 0), xloops=0.35).program()
+                if valid(p):
+                    yield p, "random-loops"
         # sleep(ms) with ms around multiples of the clock step: now == wake is reached exactly
         for stp in CLOCK_STEPS:
             for ms in [0, stp, 2 * stp, 3 * stp, 3 * stp + 1]:
@@ -804,13 +1431,15 @@ def run(rep):
 
     exh = [(2, 2)] if tier == "quick" else [(3, 2), (2, 3)]
     n_rand = 700 if tier == "quick" else 5000
+    n_xrand = 500 if tier == "quick" else 4000
     hist, bad, flagged = {}, [], {"#EARLY-EXIT": 0, "#LIFO-DELAY": 0, "#CAP": 0}
+    feats, boundary_yields = {}, 0
     distinct, nontrivial, oracle_fail, samples = set(), 0, [], []
     events = n_eval = 0
     chunk = []
 
     def flush():
-        nonlocal nontrivial, events, n_eval
+        nonlocal nontrivial, events, n_eval, boundary_yields
         if not chunk:
             return
         results = compare_batch([p for p, _ in chunk], impl_dir)
@@ -828,6 +1457,9 @@ def run(rep):
                 if len(set(tl)) >= 2 and any(tl[i] != tl[i + 1] for i in range(len(tl) - 1)):
                     nontrivial += 1
             events += len(m)
+            for ft in loop_features(p):
+                feats[ft] = feats.get(ft, 0) + 1
+            boundary_yields += sum(1 for l in il if l.startswith("CBV yield ") and " loop=1 " in l)
             if m != il:
                 bad.append((p, o))
             else:
@@ -857,6 +1489,8 @@ def run(rep):
         "known_defect_shapes_in_stream": flagged,
         "disagreements": len(bad),
         "samples": samples,
+        "loop_iteration_endings": dict(sorted(feats.items())),
+        "loop_boundary_suspensions_compared": boundary_yields,
     })
     for p, o in bad[:4]:
         report_disagreement(rep, p, impl_dir, o)
@@ -919,8 +1553,11 @@ def run(rep):
         if rc != 0:
             rep.violation("coqchk", {"log": txt[-3000:]}, "coqchk rejects the compiled C15 proofs", True)
     rep.assumptions += [
-        "what a statement asks of the scheduler (its request tree) is abstract in the theorems; the generated programs use top-level yields, "
-        "auto-yielding for-loops, calls of plain functions, await, sleep, timeout, now(), run_event_loop()",
+        "what a statement asks of the scheduler (its request tree) is abstract in the scheduler theorems; the generated programs use top-level "
+        "yields, for / while loops with continue, break, yield, return, if, nested blocks and nested loops, calls of plain functions (with loops "
+        "when called from main), await, sleep, timeout, now(), run_event_loop(), async int and async void functions",
+        "loop conditions and if conditions of generated bodies read loop counters only (the iteration-boundary theorems quantify over all "
+        "such statements); a for loop whose init is an assignment (re-executed on every re-entry) is not generated",
         "the clock is any function of the read count in the theorems (monotone where stated); wall-clock monotonicity is assumed, not tested",
         "trace equality uses the CB_VERIF_CLOCK virtual clock; on real time only now_after - now_before >= ms is tested",
     ]
